@@ -103,6 +103,7 @@ func init() {
 		Assumptions: []string{
 			"the simulator serialises execution: one task runs at a time and can lose the CPU between any two statements of d2's own pipeline packages (scheduling points from cmd/yieldgen's source overlay: function and loop entries, branches, before and after stores through selectors, indexes and pointers), never while it holds a sync.Mutex/RWMutex (sync overlay), and never inside code of a dependency; effects that need two threads inside one statement or inside a dependency are not observable",
 			"if the rewritten tree does not build, the engine is built without the statement-level points, says so in its output, and interleaves at stage boundaries only",
+			"a statement-level schedule is not reproducible across processes (the number of scheduling points a stage passes depends on the order of pointer-keyed maps, i.e. on addresses); the determinism self-test of such sessions compares inputs and results, and a violation whose replay misses the window is reported with its recorded trace",
 			"inputs are sampled (repository corpus + generator), not enumerated",
 		},
 		RealStub: pipeRealStub,
